@@ -1119,7 +1119,13 @@ func c08Round(t *testing.T, zr *zv.Run, cfg c08Cfg, g *zv.Group, reuse map[strin
 
 // c08Plans derives every round of the run from the seed.  The shapes are interleaved so that a run that is cut short
 // by its time budget has done its share of each.
-func c08Plans(r *zv.Run) []c08Cfg {
+func c08Plans(r *zv.Run, race bool) []c08Cfg {
+	// the instrumented binary of the quick tier gets small squares: the detector judges happens-before, not timing, and
+	// hashing a 64x64 square under instrumentation costs seconds per round
+	big, mid := 32, 16
+	if race && !r.Thorough() {
+		big, mid = 8, 8
+	}
 	root := r.Rand()
 	var shapes [][]c08Cfg
 
@@ -1154,7 +1160,7 @@ func c08Plans(r *zv.Run) []c08Cfg {
 	//         touched Q4 yet, then RemoveODSQ4 + PutODSQ4 re-create the files under the same paths
 	var lazy []c08Cfg
 	for i, n := 0, r.N(16, 600); i < n; i++ {
-		cfg := c08Cfg{Recent: i % 2, Cached: 1, Ks: []int{32, 2, 2}, Seed: root.U64(), Shape: "lazyq4"}
+		cfg := c08Cfg{Recent: i % 2, Cached: 1, Ks: []int{big, 2, 2}, Seed: root.U64(), Shape: "lazyq4"}
 		if i%4 < 2 {
 			cfg.Pre = []c08Step{{Kind: "put", H: 0}, {Kind: "put", H: 1}} // the second put evicts the in-memory square of the first
 			cfg.Scripts = [][]c08Step{{{Kind: "putq4", H: 0, Gate: true}}}
@@ -1200,7 +1206,7 @@ func c08Plans(r *zv.Run) []c08Cfg {
 		rng := zv.NewRand(seed)
 		ks := []int{4, 2, 8}
 		if i%4 == 3 {
-			ks = []int{16, 2, 4}
+			ks = []int{mid, 2, 4}
 		}
 		cfg := c08Cfg{Recent: i % 3, Cached: 1 + (i/3)%2, Ks: ks, Seed: seed, Shape: "stress"}
 		for gi, goroutines := 0, 6+rng.Intn(5); gi < goroutines; gi++ {
@@ -1236,6 +1242,7 @@ func TestVerifC08(t *testing.T) { c08Main(t, false) }
 // c08Main is the body of TestVerifC08 (plain build: the recorded histories go to Coq) and of TestVerifC08Race (the same
 // rounds in a binary built with -race, for the detector's verdict; see zz_verif_c08_race_test.go).
 func c08Main(t *testing.T, race bool) {
+	t0 := time.Now()
 	r := zv.Start(t, "C08")
 	defer r.Finish()
 	var groups []*zv.Group
@@ -1267,13 +1274,14 @@ func c08Main(t *testing.T, race bool) {
 	// the plan of the quick tier takes about 8 s on an idle machine (several times that with the race detector); the
 	// deadline only keeps a loaded machine or the instrumented binary within the tier's budget: the rounds are
 	// interleaved by shape, so a run that is cut short has done its share of each
+	tStart := time.Now()
 	budget := r.N(14, 540)
 	if race {
 		budget = r.N(10, 540)
 	}
 	deadline := time.Now().Add(time.Duration(budget) * time.Second)
 	reuse := map[string]*c08Env{}
-	plans := c08Plans(r)
+	plans := c08Plans(r, race)
 	done, micro := 0, 0
 	for _, cfg := range plans {
 		if time.Now().After(deadline) {
@@ -1293,12 +1301,14 @@ func c08Main(t *testing.T, race bool) {
 		}
 		done++
 	}
+	tRounds := time.Now()
 	for _, k := range zv.SortedKeys(reuse) {
 		e := reuse[k]
 		e.cfg.Shape = "micro (descriptors counted after ALL micro rounds on the store with these cache sizes; this is the last of them)"
 		e.drain()
 		e.close()
 	}
+	r.Set(c08Pfx+"seconds", map[string]float64{"setup": tStart.Sub(t0).Seconds(), "rounds": tRounds.Sub(tStart).Seconds(), "final_drain": time.Since(tRounds).Seconds()})
 	r.Set(c08Pfx+"rounds_planned", len(plans))
 	r.Set(c08Pfx+"rounds_run", done)
 }
